@@ -28,7 +28,10 @@ import (
 const rule = "case = one scenario (dependency graph of 1-5 modules; per module 0-8 work items of the kinds worker, service worker, " +
 	"task, prioritized task, microtask high/medium/low, signalled microtask high/medium/low, event hook (own event / dependency's event); " +
 	"return delays after cancellation; nil/ok/failing/panicking stop routine with its own delay; Shutdown or module-management stop, " +
-	"restart and second stop; late work on stopped modules; random delays and forced holds at the hooked protocol steps) executed on the real " +
+	"restart and second stop; late work on stopped modules; other life cycles: start routines that launch work and then fail (error / panic, " +
+	"in the initial Start or in a later ManageModules; one or two failing attempts, retry through ManageModules, or never retried), work started " +
+	"from the prep routine or before modules.Start, restart after a stop that timed out; every executing piece of work reports the context it " +
+	"actually holds inside the stop routine; random delays and forced holds at the hooked protocol steps) executed on the real " +
 	"package in a child process; its lines are the recorded atomic events. A case is non-trivial if at least one stop cycle with running " +
 	"work or a stop routine was recorded; distinct = distinct recorded traces. Corrupted copies of recorded traces (x-lines) must be rejected by the model."
 
@@ -403,6 +406,221 @@ func genFinding(rng *rand.Rand, which string) *Scn {
 	return s
 }
 
+// ---- other life cycles than start → stop → start ---------------------------------------------------
+//
+// A module gets a context without being stopped afterwards when its start routine fails (status back to offline,
+// nothing else reset) or when work is started before its first start (prep phase, or right after registration).
+// The families below put work of every kind into these phases, retry the start through ManageModules (or never),
+// and then stop the module (management or Shutdown) with that work still executing.
+
+var lifecycleKinds = []string{"failstart-initial", "failstart-managed", "failstart-noretry", "prep-work", "restart-after-timeout"}
+
+// kinds that a lifecycle routine can launch; tasks and event hooks only where the task handlers run (after a
+// successful modules.Start) — a hook triggered while the module is starting waits for the start to complete
+var routineKinds = []string{"w", "w", "sw", "mh", "mm", "ml", "sh", "sm", "sl"}
+var routineKindsOnline = []string{"w", "w", "sw", "mh", "mm", "ml", "sh", "sm", "sl", "t", "tp", "hk"}
+
+func routineItem(rng *rand.Rand, kinds []string, at string, long bool) Item {
+	k := kinds[rng.Intn(len(kinds))]
+	it := Item{Kind: k, At: at}
+	switch rng.Intn(4) {
+	case 0:
+		it.Delay = 0
+	case 1:
+		it.Delay = rng.Intn(6)
+	case 2:
+		it.Delay = rng.Intn(40)
+	default:
+		// takes a while to react to the cancellation: still executing when a stop that follows soon begins
+		it.Delay = 60 + rng.Intn(120)
+	}
+	if long {
+		it.Delay = 120 + rng.Intn(120)
+	}
+	if k == "sw" {
+		it.Ret = []string{"", "ctxerr", "cancelwrap", "restartnow", "restartwrap", "err", "panic"}[rng.Intn(7)]
+	} else if k[0] != 's' {
+		it.Ret = []string{"", "", "", "err", "panic", "ctxerr"}[rng.Intn(6)]
+	}
+	return it
+}
+
+func genLifecycle(rng *rand.Rand, which string) *Scn {
+	s := &Scn{StopTimeout: 3000, Seed: rng.Int63(), Mgmt: true, NoNotify: rng.Intn(2) == 0}
+	n := 1 + rng.Intn(3)
+	tasksLeft := 1
+	for i := 0; i < n; i++ {
+		m := Mod{Deps: []int{}}
+		for d := 0; d < i; d++ {
+			if rng.Intn(3) == 0 {
+				m.Deps = append(m.Deps, d)
+			}
+		}
+		if rng.Intn(2) == 0 {
+			m.StartFn = "ok"
+		}
+		m.StopFn = stopFns[rng.Intn(len(stopFns))]
+		if m.StopFn != "" && rng.Intn(2) == 0 {
+			m.StopDelay = rng.Intn(20)
+		}
+		m.Items = genItems(rng, 3, len(m.Deps) > 0, 0, 30, &tasksLeft)
+		for j := range m.Items {
+			if m.Items[j].At == "start" && m.StartFn == "" {
+				m.Items[j].At = ""
+			}
+		}
+		for _, k := range lateKinds {
+			if rng.Intn(4) == 0 {
+				m.Late = append(m.Late, k)
+			}
+		}
+		s.Mods = append(s.Mods, m)
+	}
+	hasRev := make([]bool, n)
+	for _, m := range s.Mods {
+		for _, d := range m.Deps {
+			hasRev[d] = true
+		}
+	}
+	var tops []int
+	for i := range s.Mods {
+		if !hasRev[i] {
+			s.Mods[i].Enabled = true
+			tops = append(tops, i)
+		}
+	}
+	switch rng.Intn(4) {
+	case 1:
+		s.YieldPm, s.YieldMaxUs = 100, 0
+	case 2:
+		s.YieldPm, s.YieldMaxUs = 200, 300
+	case 3:
+		s.YieldPm, s.YieldMaxUs = 500, 1200
+	}
+	failKind := []string{"err", "panic"}[rng.Intn(2)]
+	stopKind := []string{"ok", "ok", "ok", "err", "panic"}[rng.Intn(5)] // the module under test has a stop routine: clause 1 is observed in it
+	switch which {
+	case "failstart-initial", "failstart-noretry":
+		// the start routine of x launches work and fails inside modules.Start
+		x := rng.Intn(n)
+		mx := &s.Mods[x]
+		mx.StartFn, mx.StartFails, mx.StopFn = failKind, 1+rng.Intn(2), stopKind
+		if which == "failstart-noretry" {
+			mx.StartFails = -1
+		}
+		for j := range mx.Items { // what the work op starts on x belongs to its online phase
+			if mx.Items[j].At == "start" {
+				mx.Items[j].At = ""
+			}
+		}
+		k := 1 + rng.Intn(4)
+		for j := 0; j < k; j++ {
+			mx.Items = append(mx.Items, routineItem(rng, routineKinds, "start", j == 0 && rng.Intn(2) == 0))
+		}
+		// after a failed modules.Start the task handlers are not running: no awaited tasks
+		for i := range s.Mods {
+			for j := range s.Mods[i].Items {
+				if it := &s.Mods[i].Items[j]; (it.Kind == "t" || it.Kind == "tp") && it.At == "" {
+					it.At = "race"
+				}
+			}
+		}
+		s.Script = []string{"start", "obs"}
+		tries := mx.StartFails
+		if tries < 0 {
+			tries = 1 + rng.Intn(2)
+		}
+		for t := 0; t < tries; t++ {
+			s.Script = append(s.Script, "manage", "obs")
+		}
+		if which == "failstart-initial" {
+			s.Script = append(s.Script, "work 0")
+			if rng.Intn(3) == 0 {
+				s.Script = append(s.Script, fmt.Sprintf("sleep %d", rng.Intn(30)))
+			}
+			if rng.Intn(3) == 0 { // stop x through module management first, restart it, then shut down
+				s.Script = append(s.Script, fmt.Sprintf("disable %d", tops[0]), "manage", "late", fmt.Sprintf("enable %d", tops[0]), "manage", "obs")
+			}
+		}
+		s.Script = append(s.Script, "shutdown", "late")
+	case "failstart-managed":
+		// x is enabled only after modules.Start succeeded for the others; its first start attempt(s) fail in ManageModules
+		if n == 1 {
+			s.Mods = append(s.Mods, Mod{Deps: []int{}, Enabled: true})
+		}
+		x := tops[rng.Intn(len(tops))]
+		mx := &s.Mods[x]
+		mx.Enabled = false
+		mx.StartFn, mx.StartFails, mx.StopFn = failKind, 1+rng.Intn(2), stopKind
+		for j := range mx.Items {
+			mx.Items[j].Cycle = 1
+			if mx.Items[j].At == "start" {
+				mx.Items[j].At = ""
+			}
+		}
+		k := 1 + rng.Intn(4)
+		for j := 0; j < k; j++ {
+			mx.Items = append(mx.Items, routineItem(rng, routineKindsOnline, "start", j == 0 && rng.Intn(2) == 0))
+		}
+		s.Script = []string{"start", "work 0", fmt.Sprintf("enable %d", x)}
+		for t := 0; t <= mx.StartFails; t++ {
+			s.Script = append(s.Script, "manage", "obs")
+		}
+		s.Script = append(s.Script, "work 1")
+		if rng.Intn(2) == 0 {
+			s.Script = append(s.Script, fmt.Sprintf("disable %d", x), "manage", "late", "obs")
+			if rng.Intn(2) == 0 {
+				s.Script = append(s.Script, fmt.Sprintf("enable %d", x), "manage", "obs")
+			}
+		}
+		s.Script = append(s.Script, "shutdown", "late")
+	case "prep-work":
+		s.Mgmt = rng.Intn(2) == 0
+		for i := range s.Mods {
+			m := &s.Mods[i]
+			if i > 0 && rng.Intn(3) == 0 {
+				continue
+			}
+			if rng.Intn(4) != 0 {
+				m.StopFn = stopKind
+			}
+			if rng.Intn(3) != 0 {
+				m.PrepFn = "ok"
+				for j, k := 0, 1+rng.Intn(3); j < k; j++ {
+					m.Items = append(m.Items, routineItem(rng, []string{"w", "w", "sw", "mh", "mm", "sh"}, "prep", j == 0))
+				}
+			}
+			if rng.Intn(2) == 0 {
+				for j, k := 0, 1+rng.Intn(2); j < k; j++ {
+					m.Items = append(m.Items, routineItem(rng, []string{"w", "sw", "mh", "sh"}, "reg", j == 0 && m.PrepFn == ""))
+				}
+			}
+		}
+		s.Script = []string{"start", "obs", "work 0", "shutdown", "late"}
+	case "restart-after-timeout":
+		// the first stop of module 0 times out on a worker that ignores the cancellation for a while; the module is
+		// started again (and stopped again) while that worker is still executing. Variant A: the worker outlives both
+		// stops (both time out). Variant B: it returns during the second stop, which has to wait for it. (The margins
+		// are wide: with a short timeout a descheduled stopper finds both its channel and its timer ready.)
+		s.StopTimeout = 150
+		slow := 1500 + rng.Intn(200)
+		if rng.Intn(2) == 0 {
+			s.StopTimeout = 1500
+			slow = 2000 + rng.Intn(300)
+		}
+		s.NoNotify = true
+		m := Mod{Deps: []int{}, StopFn: "ok", Enabled: true, StartFn: []string{"", "ok"}[rng.Intn(2)], Items: []Item{
+			{Kind: []string{"w", "mh", "sw", "tp"}[rng.Intn(4)], Delay: slow},
+			{Kind: "w", Delay: rng.Intn(10)},
+			{Kind: []string{"w", "mm", "sh", "t"}[rng.Intn(4)], Delay: rng.Intn(30), Cycle: 1}}}
+		s.Mods = []Mod{m, {Deps: []int{}, Enabled: true}}
+		s.YieldPm, s.YieldMaxUs = 0, 0
+		s.Script = []string{"start", "work 0", "disable 0", "manage", "obs", "enable 0", "manage", "obs", "work 1", "shutdown", "late"}
+	}
+	shortenForRestarters(s)
+	return s
+}
+
 var forcedKinds = []string{"service-worker-answers", "self-finishers", "stopper-held-before-stopfn", "two-finishers-race-cas",
 	"new-work-during-stop", "stopfn-last", "stopfn-nil-stopper-completes"}
 
@@ -428,6 +646,15 @@ func gen(r *hxlib.Run, emit func(hxlib.Case)) {
 	}
 	for i := 0; i < r.Budget(2, 8); i++ {
 		add("timeout", genScenario(r.Rng, "timeout"))
+	}
+	for _, k := range lifecycleKinds {
+		nk := r.Budget(30, 400)
+		if k == "restart-after-timeout" {
+			nk = r.Budget(4, 40)
+		}
+		for i := 0; i < nk; i++ {
+			add("lifecycle:"+k, genLifecycle(r.Rng, k))
+		}
 	}
 	n := r.Budget(800, 12000)
 	if v, err := strconv.Atoi(os.Getenv("HX_C05_SCALE_PERCENT")); err == nil && v > 0 {
@@ -497,6 +724,7 @@ func gen(r *hxlib.Run, emit func(hxlib.Case)) {
 }
 
 // mutateTrace builds corrupted copies of an accepted trace; each corruption is illegal in every model state.
+// (A `workEnter`/`ctxObs` line is `e <mod> <act> <cancelled> <launch> gen=<k> …`.)
 func mutateTrace(rng *rand.Rand, lines []string) []hxlib.Case {
 	var out []hxlib.Case
 	mk := func(kind string, body []string) {
@@ -564,6 +792,31 @@ func mutateTrace(rng *rand.Rand, lines []string) []hxlib.Case {
 	}
 	if ix := find("cClose"); len(ix) > 0 {
 		mk("wake-without-close", del(ix[rng.Intn(len(ix))]))
+	}
+	if ix := find("ctxObs"); len(ix) > 0 {
+		// a piece of work sees the opposite of what its context is
+		i := ix[rng.Intn(len(ix))]
+		f := strings.Fields(body[i])
+		f[3] = map[string]string{"0": "1", "1": "0"}[f[3]]
+		b := append([]string{}, body...)
+		b[i] = strings.Join(f, " ")
+		mk("flip-ctxObs", b)
+	}
+	for _, act := range []string{"startFail", "prepDone"} {
+		// the status write is lost: the following start() of the module cannot find it offline
+		ix := find(act)
+		if len(ix) == 0 {
+			continue
+		}
+		i := ix[rng.Intn(len(ix))]
+		mod := strings.Fields(body[i])[1]
+		for k := i + 1; k < len(body); k++ {
+			f := strings.Fields(body[k])
+			if len(f) >= 3 && f[0] == "e" && f[1] == mod && f[2] == "startBegin" {
+				mk("drop-"+act, del(i))
+				break
+			}
+		}
 	}
 	if ix := find("dec"); len(ix) > 0 {
 		// a finisher that skips the decrement: its check reads must then fail or the wake-up is not enabled
